@@ -125,6 +125,55 @@ def rule_bind_thread(db: ProgramDB) -> List[Instance]:
                         f"the operand receives `{unparse(s.binding)}`, derived from the incoming `{', '.join(sorted(bparams))}`" if ok else
                         f"the operand receives `{unparse(s.binding)}`, which does not derive from the incoming "
                         f"`{', '.join(sorted(bparams))}`", line=s.line))
+    out.extend(_helper_sites(db, model))
+    return out
+
+
+def _helper_sites(db: ProgramDB, model: SiteModel) -> List[Instance]:
+    """Calls of the class's own binding-threading helpers (generators that take a binding and evaluate further expressions
+    under it: the sequential binders of selected variables / constructor arguments / unbound condition variables) from
+    inside a loop over an evaluation stream: the row of that loop has to be handed to the helper, otherwise what the helper
+    evaluates is not correlated with the row (the fields of two assignments are mixed)."""
+    out = []
+    se = db.cls("SymbolicExpression")
+    for c in [se] + se.all_subclasses():
+        for fn in c.methods.values():
+            for call in own_calls(fn):
+                f = call.func
+                if not (isinstance(f, ast.Attribute) and isinstance(f.value, ast.Name) and f.value.id == "self"):
+                    continue
+                if is_eval_name(f.attr):
+                    continue
+                callee = c.lookup(f.attr)
+                if callee is None or not callee.is_generator:
+                    continue
+                cb = binding_params(callee)
+                if not cb:
+                    continue
+                loops = model._enclosing_stream_loops(fn, call)
+                if not loops:
+                    continue
+                inner = loops[-1]
+                if inner.iter is call or any(x is call for x in ast.walk(inner.iter)):
+                    continue
+                roots = loop_targets(inner)
+                derived = derived_closure(fn, roots)
+                assigned_in_loop = {t.id for n in ast.walk(inner) if isinstance(n, (ast.Assign, ast.AugAssign))
+                                    for t in (n.targets if isinstance(n, ast.Assign) else [n.target]) if isinstance(t, ast.Name)}
+                updated_in_loop = {n.func.value.id for n in ast.walk(inner) if isinstance(n, ast.Call)
+                                   and isinstance(n.func, ast.Attribute) and n.func.attr == "update"
+                                   and isinstance(n.func.value, ast.Name)}
+                carried = roots | (derived & (assigned_in_loop | updated_in_loop))
+                args = list(call.args) + [k.value for k in call.keywords]
+                ok = any(names_in(a) & carried for a in args)
+                key = f"{fn.short}[self.{f.attr}({', '.join(unparse(a)[:24] for a in args)})]"
+                out.append(inst("BIND-THREAD", HOLDS if ok else VIOLATION, fn, key,
+                                f"inside the loop over `{unparse(inner.iter)[:40]}` the helper `{f.attr}` is handed the row of that loop "
+                                f"(`{', '.join(sorted(roots))}`)" if ok else
+                                f"inside the loop over `{unparse(inner.iter)[:40]}` the helper `{f.attr}` (which evaluates further "
+                                f"expressions under the binding it is given) is not handed the row `{', '.join(sorted(roots))}` of "
+                                f"that loop: what it evaluates is enumerated independently of the row, so values of different "
+                                f"assignments are combined", line=call.lineno))
     return out
 
 
@@ -403,7 +452,9 @@ def rule_dedup_key(db: ProgramDB) -> List[Instance]:
                           isinstance(n.func.value, ast.Call) and isinstance(n.func.value.func, ast.Name)
                           and n.func.value.func.id == "super" for n in own_nodes(m.node))
         ok = ("left", "right") in adds or calls_super
-        bad_extra = ("right", "right") in adds or ("left", "left") in adds
+        # keying a child's rows ALSO by that child's own variables only makes the key finer (fewer rows are taken for
+        # duplicates); ForAll does that for its condition on purpose.  It is never a reason to report.
+        bad_extra = False
         out.append(inst("DEDUP-KEY", HOLDS if ok and not bad_extra else VIOLATION, m, f"{m.short}[left child keyed by right operand]",
                         f"key additions {sorted(adds)}{' + inherited' if calls_super else ''}: the left child's rows are keyed by the "
                         f"right operand's variables" if ok and not bad_extra else
@@ -534,4 +585,77 @@ def rule_product_correlated(db: ProgramDB) -> List[Instance]:
         out.append(inst("PRODUCT-CORRELATED", HOLDS, fn, fn.short,
                         "binds several expressions into one row by recursive nested evaluation, each under the binding "
                         "accumulated so far"))
+    return out
+
+
+# ---------------------------------------------------------------------------------- DEDUP-UNKNOWN
+def rule_dedup_unknown(db: ProgramDB) -> List[Instance]:
+    """`when_true=None` means that the truth of the child's row is not known to the ancestor asking (an else-if passes it up
+    for its false rows, which may become true through its other side).  An implementation that admits None must then
+    require at least what it requires for a row known to be true or known to be false: the key for 'unknown' has to tell
+    apart every two rows that either of the known cases tells apart."""
+    from ..abseval import AbsEval, State, const, NONE, TRUE, FALSE
+    from ..cfg import CFG
+    out = []
+    se = db.cls("SymbolicExpression")
+    n = 0
+    for c in sorted(se.all_subclasses(), key=lambda k: k.qualname):
+        m = c.methods.get("_required_variables_from_child_")
+        if m is None:
+            continue
+        wt = "when_true"
+        if wt not in m.params:
+            continue
+        ann = next((unparse(a.annotation) for a in m.node.args.args + m.node.args.kwonlyargs if a.arg == wt and a.annotation is not None), "")
+        dflt = m.param_default(wt)
+        admits_none = "Optional" in ann or "None" in ann or (isinstance(dflt, ast.Constant) and dflt.value is None)
+        if not admits_none:
+            continue
+        cfg = CFG(m)
+
+        def attr_hook(e, st, ev):
+            if isinstance(e, ast.Attribute) and isinstance(e.value, ast.Name) and e.value.id == "self":
+                if e.attr == "_parent_":
+                    return ("obj", "truthy")
+                if e.attr in ("left", "right", "_child_"):
+                    return ("obj", "#" + e.attr)
+            return None
+        child_param = m.positional_params[1] if len(m.positional_params) > 1 else None
+        is_binary = c.is_subclass_of("BinaryOperator")
+        sides = ["left", "right"] if is_binary else ["_child_"]
+        # key contributions: calls X.update(<arg>) / X.add(<arg>) on a local accumulator, identified by the text of <arg>
+        def contributions(nd) -> List[str]:
+            res = []
+            if nd.ast is None or nd.kind != "stmt":
+                return res
+            for x in ast.walk(nd.ast):
+                if isinstance(x, ast.Call) and call_attr(x) in ("update", "add") and x.args and isinstance(x.func.value, ast.Name):
+                    res.append(unparse(x.args[0]))
+            return res
+        for side in sides:
+            reach: Dict[str, Set[str]] = {}
+            for label, tok in (("True", TRUE), ("False", FALSE), ("None", NONE)):
+                ev = AbsEval(db, m, cfg, attr_hook=attr_hook)
+                init = {wt: tok}
+                if child_param:
+                    init[child_param] = ("obj", "#" + side)
+                IN = ev.run(State(init), kinds=("n",))
+                got: Set[str] = set()
+                for nid, sts in IN.items():
+                    if sts:
+                        got.update(contributions(cfg.nodes[nid]))
+                reach[label] = got
+            n += 1
+            missing = sorted((reach["True"] | reach["False"]) - reach["None"])
+            # contributions inside a loop `for conc in …: update(conc._unique_variables_)` appear by text as well
+            ok = not missing
+            out.append(inst("DEDUP-UNKNOWN", HOLDS if ok else VIOLATION, m, f"{m.short}[child is self.{side}: unknown truth]",
+                            f"for a row of unknown truth the key contains everything required for a true or a false row "
+                            f"({len(reach['None'])} contribution(s))" if ok else
+                            f"for a row of self.{side} whose truth is unknown (when_true=None) the key lacks `{missing[0]}`, which is "
+                            f"required when the row is known to be {'false' if missing[0] in reach['False'] else 'true'}: in a chain of "
+                            f"alternatives the failed rows of the base are suppressed as duplicates before a later alternative "
+                            f"that tests those variables sees them"))
+    if n == 0:
+        raise AnalysisError("no _required_variables_from_child_ implementation admits when_true=None")
     return out
